@@ -612,7 +612,10 @@ pub fn run(cx: &mut Cx) {
                     }
                 }
             }
-            cx.set_budget(budget, 1 << 31);
+            // Allocated bytes (cumulative, not live): every allocation of a
+            // call is at most about the input length, so the byte budget is
+            // the allocation budget times (length + slack).
+            cx.set_budget(budget, budget.saturating_mul(len as u64 + 256));
             let root = scratch.join(format!("db{}", round % 4));
             cx.check(
                 || format!("{entry} <- {class} ({} bytes): {}", len, show(&input[..len.min(300)])),
